@@ -127,11 +127,14 @@ class Solution(object):
                 # We can find a variable here
                 var = index(lambda i: not null(i), row[:-1])
                 vals[var] = row[-1] / row[var]
-        # Fill in the rest with given values
+        # Fill in the free variables with given values. A variable is free
+        # if no equation has its leading coefficient in that column; all
+        # others are determined by the back substitution below.
+        pivots = set(first_nonzero(row) for row in self._s if not nullrow(row))
         for i in reversed(range(len(vals))):
             if not v:
                 break
-            if vals[i] is None:
+            if i not in pivots:
                 vals[i] = v.pop()
 
         for i in reversed(range(len(self._s))):
